@@ -782,7 +782,7 @@ impl Register {
 impl Aml for Register {
     fn to_aml_bytes(&self, sink: &mut dyn AmlSink) {
         sink.byte(REGDESC); /* Register Descriptor */
-        sink.word(0x12); // length
+        sink.word(gas::GAS::len() as u16); // length: 12 bytes of generic address structure
         self.reg.to_aml_bytes(sink);
     }
 }
